@@ -12,7 +12,7 @@ package seqio
 // punctuation of real records and lengths straddling the wrap columns, locus names of 1..26
 // characters, reference numbers incl. 99..999, feature keys of 1..16 characters, joins of up to
 // 13 parts (wrapped location lines), qualifier values with line breaks; SOURCE and ORGANISM
-// values kept to one line, no double quotes):
+// values kept to one line):
 //   residues     0, 1, 9, 10, 11, 59, 60, 61, 119, 120, 121, 130 (ORIGIN line/group boundaries)
 //   locus        names of 1, 6 and 16 characters; DNA, RNA, ss-DNA, ds-DNA; linear, circular;
 //                divisions SYN, PHG, UNA; dates 01-JAN-1980, 29-FEB-2000, 31-DEC-1999, 06-JUL-2018
@@ -27,6 +27,8 @@ package seqio
 //                quoted value (wraps), values of exactly 57..59 characters, values with line
 //                breaks (a short inner line, an empty inner line), leading/trailing blanks, a
 //                backslash, a value with a double quote, two qualifiers of one name
+//   buffering    one record with its COMMENT padded by 3000..7095 characters, so that every line
+//                of the record crosses a 4096-byte read boundary of the scanner once
 //   streams      1..4 records written one after the other into one stream
 //   pipelines    the four records of seqio/testdata, the base record and a record with both a
 //                CONTIG field and residues, after each of
@@ -36,8 +38,7 @@ package seqio
 // write-read-write-fixed-point, stream-framed-independently, unknown-qualifier-names,
 // corpus-declared-length (the four
 // files of seqio/testdata are read with as many residues as their LOCUS line declares).
-// Defect classes told apart by the input: embedded-quote (some qualifier value contains a double
-// quote), empty-region (the record is an empty slice).
+// Defect class told apart by the input: empty-region (the record is an empty slice).
 
 import (
 	"bytes"
@@ -250,16 +251,7 @@ func vgLabel(name string, seq gts.Sequence, detail string) string {
 		}
 		return strings.Join(w, "_")
 	}
-	// the two recorded defect classes, delimited by the input
-	for _, f := range seq.Features() {
-		for _, kv := range f.Props {
-			for _, v := range kv[1:] {
-				if strings.Contains(v, `"`) {
-					return "embedded-quote"
-				}
-			}
-		}
-	}
+	// the recorded defect class, delimited by the input
 	if f, ok := vgFields(seq); ok {
 		if seg, ok := f.Region.(gts.Segment); ok && seg[0] == seg[1] {
 			return "empty-region"
@@ -313,11 +305,11 @@ func vgMake(f GenBankFields, ff gts.FeatureSlice, n int) gts.Sequence {
 
 // ---- structure-aware random records -------------------------------------------------------
 // Every text field is drawn from words over letters, digits and the punctuation that occurs in
-// real records, with lengths that straddle the wrap columns; names, numbers and keys are drawn
-// over their whole width.  Double quotes are left out (known finding embedded-quote).
+// real records (double quotes included), with lengths that straddle the wrap columns; names,
+// numbers and keys are drawn over their whole width.
 
 var vgWords = []string{"a", "of", "the", "sp.", "str.", "subsp.", "K-12", "MG1655", "Escherichia", "coli", "virus", "phiX174", "complete", "genome",
-	"hypothetical", "protein", "DNA-binding", "transcriptional", "regulator,", "(EC", "2.7.7.7)", "5'-end", "alpha/beta", "x=y", "semi;colon", "Monodnaviria", "Malgrandaviricetes", "1", "42", "Z"}
+	"hypothetical", "protein", "\"quoted\"", "5\"", "DNA-binding", "transcriptional", "regulator,", "(EC", "2.7.7.7)", "5'-end", "alpha/beta", "x=y", "semi;colon", "Monodnaviria", "Malgrandaviricetes", "1", "42", "Z"}
 
 func vgText(rng *rand.Rand, minWords, maxWords int) string {
 	n := minWords + rng.Intn(maxWords-minWords+1)
@@ -640,6 +632,8 @@ func TestVerifBoundedGenBank(t *testing.T) {
 		{"note", "trailing blank "}, {"note", " leading blank"}, {"note", "semi;colon, comma and (parens) = equals"},
 		{"db_xref", "GeneID:944742", "db_xref", "ASAP:ABE-0000008"},
 		{"label", "pBR322\\origin"},
+		{"note", `"starts with a quote`}, {"note", `ends with a quote"`}, {"note", `"`}, {"note", `""`}, {"note", `two "" together`},
+		{"note", `a "quoted" word and a long tail ` + long}, {"unknown_name", `has a "quote"`}, {"note", "line one \"q\"\nline \"two\""},
 	}
 	for i, q := range quals {
 		ff := gts.FeatureSlice{gts.NewFeature("source", gts.Range(0, 61), vgProps("organism", "x"))}
@@ -695,6 +689,21 @@ func TestVerifBoundedGenBank(t *testing.T) {
 	}
 	for k := 0; k < nStruct; k++ {
 		check(fmt.Sprintf("structured#%d", k), vgRandomRecord(rng))
+	}
+
+	// reader buffer boundaries: the scanner reads its input in 4096-byte blocks; a COMMENT padded
+	// with 3000..7095 characters moves every line of the record across a block boundary once
+	{
+		f := vgBaseFields()
+		f.References = append([]Reference(nil), refs[:2]...)
+		f.DBLink = dblinks[2]
+		ff := vgBaseTable(130)
+		ff = ff.Insert(gts.NewFeature("misc_feature", gts.Join(gts.Range(50, 60), gts.Range(70, 80)), vgProps("note", long, "pseudo", "", "codon_start", "1")))
+		for k := 0; k < 4096; k++ {
+			g := f
+			g.Comments = []string{strings.Repeat("x", 3000+k)}
+			check(fmt.Sprintf("block-boundary pad=%d", 3000+k), vgMake(g, ff, 130))
+		}
 	}
 
 	// qualifier names the registries do not know, met in the text of a record (not built through
